@@ -15,6 +15,10 @@ use std::io::Write;
 pub struct Resp {
     pub status: u16,
     pub location: Option<String>,
+    /// 0: empty body (Content-Length: 0); 1: a complete 13-byte body; 2: Content-Length 64 announced,
+    /// 5 bytes sent, then the connection closes
+    #[serde(default)]
+    pub body: u8,
 }
 
 impl Resp {
@@ -23,7 +27,11 @@ impl Resp {
         if let Some(l) = &self.location {
             w.extend_from_slice(format!("Location: {l}\r\n").as_bytes());
         }
-        w.extend_from_slice(b"Content-Length: 0\r\n\r\n");
+        match self.body {
+            1 => w.extend_from_slice(b"Content-Length: 13\r\n\r\nredirect-body"),
+            2 => w.extend_from_slice(b"Content-Length: 64\r\n\r\nshort"),
+            _ => w.extend_from_slice(b"Content-Length: 0\r\n\r\n"),
+        }
         w
     }
 }
@@ -37,7 +45,7 @@ pub struct HopObs {
 
 #[derive(Clone, Debug, PartialEq, Eq)]
 pub enum Final {
-    Ok { status: u16, url: String },
+    Ok { status: u16, url: String, body: Result<Vec<u8>, String> },
     Err(String),
     Panic(String),
 }
@@ -69,10 +77,11 @@ where
     let fin = match res {
         Err(p) => Final::Panic(p),
         Ok(Err(e)) => Final::Err(err_kind(&e)),
-        Ok(Ok(r)) => Final::Ok {
-            status: r.status().as_u16(),
-            url: r.url().as_str().to_string(),
-        },
+        Ok(Ok(r)) => {
+            let (status, url) = (r.status().as_u16(), r.url().as_str().to_string());
+            let body = guarded(|| r.bytes()).map_err(|p| format!("panic: {p}")).and_then(|b| b.map_err(|e| e.to_string()));
+            Final::Ok { status, url, body }
+        }
     };
     let conns = world.conns.lock().unwrap();
     let hops = conns
@@ -117,16 +126,23 @@ fn location_menu() -> Vec<Option<&'static str>> {
 fn response_menu() -> Vec<Resp> {
     let mut v = Vec::new();
     for s in [200u16, 404] {
-        v.push(Resp { status: s, location: None });
+        v.push(Resp { status: s, location: None, body: 0 });
     }
-    v.push(Resp { status: 200, location: Some("http://b.test/ignored".into()) });
+    v.push(Resp { status: 200, location: Some("http://b.test/ignored".into()), body: 0 });
     for s in [300u16, 304, 305, 306, 399] {
-        v.push(Resp { status: s, location: None });
-        v.push(Resp { status: s, location: Some("http://b.test/n2".into()) });
+        v.push(Resp { status: s, location: None, body: 0 });
+        v.push(Resp { status: s, location: Some("http://b.test/n2".into()), body: 0 });
+    }
+    // redirect responses that carry a body of their own (complete / cut short): the body plays no
+    // part in following, and is the caller's to read when the response is returned
+    for s in [302u16, 307, 300] {
+        for body in [1u8, 2] {
+            v.push(Resp { status: s, location: Some("http://b.test/n2".into()), body });
+        }
     }
     for s in FOLLOWED {
         for l in location_menu() {
-            v.push(Resp { status: s, location: l.map(|s| s.to_string()) });
+            v.push(Resp { status: s, location: l.map(|s| s.to_string()), body: 0 });
         }
     }
     v
@@ -276,7 +292,7 @@ fn check09(c: &Case09) -> (Vec<(String, String)>, Option<(String, u32)>, String)
     }
     let outcome;
     match (&expect, &fin) {
-        (None, Final::Ok { status, url }) => {
+        (None, Final::Ok { status, url, .. }) => {
             outcome = "followed-to-200".to_string();
             let last = expected_urls.last().unwrap();
             if *status != 200 || strip_fragment(url) != *last {
@@ -287,8 +303,18 @@ fn check09(c: &Case09) -> (Vec<(String, String)>, Option<(String, u32)>, String)
             outcome = "bad".into();
             v.push(("final".into(), format!("{desc}: expected the 200 of the last hop, got {other:?}")));
         }
-        (Some(RefStep::Return), Final::Ok { status, url }) => {
+        (Some(RefStep::Return), Final::Ok { status, url, body }) => {
             outcome = format!("returned-{}", c.responses[exp_requests - 1].status / 100);
+            // the returned response's own body is intact
+            match (c.responses[exp_requests - 1].body, body) {
+                (0, Ok(b)) if b.is_empty() => {}
+                (1, Ok(b)) if b == b"redirect-body" => {}
+                (2, Err(_)) => {}
+                (k, other) => v.push((
+                    "returned-body".into(),
+                    format!("{desc}: the returned response (body variant {k}) reads as {:?}", other.as_ref().map(|b| esc(b))),
+                )),
+            }
             let last = expected_urls.last().unwrap();
             let exp_status = c.responses[exp_requests - 1].status;
             if *status != exp_status || strip_fragment(url) != *last {
@@ -373,6 +399,53 @@ fn bfs09(ctx: &Ctx, start: &str, max: u32, follow: bool, depth_cap: usize) -> (u
     (states, transitions, execs)
 }
 
+/// A Location with a non-http scheme that nevertheless names a reachable host and port: it must be
+/// an error, and nothing may be sent there. (In the scripted world a connection for another scheme
+/// never reaches the transport factory, so this part uses a real loopback listener.)
+fn non_http_locations(ctx: &Ctx) -> u64 {
+    use std::io::{Read, Write};
+    let l = std::net::TcpListener::bind("127.0.0.1:0").unwrap();
+    let port = l.local_addr().unwrap().port();
+    l.set_nonblocking(true).unwrap();
+    let mut n = 0;
+    for scheme in ["ftp", "ws", "wss", "foo", "gopher", "file"] {
+        for status in [301u16, 302, 307] {
+            n += 1;
+            let loc = format!("{scheme}://127.0.0.1:{port}/pub/file");
+            let resp = Resp { status, location: Some(loc.clone()), body: 0 };
+            let (hops, fin) = run_chain(&[resp], || attohttpc::get("http://a.test/start").read_timeout(std::time::Duration::from_secs(2)).send());
+            // did anything arrive at the listener?
+            let mut got = Vec::new();
+            for _ in 0..20 {
+                if let Ok((mut s, _)) = l.accept() {
+                    let _ = s.set_nonblocking(false);
+                    let _ = s.set_read_timeout(Some(std::time::Duration::from_millis(300)));
+                    let mut buf = [0u8; 512];
+                    if let Ok(k) = s.read(&mut buf) {
+                        got.extend_from_slice(&buf[..k]);
+                    }
+                    let _ = s.write_all(b"HTTP/1.1 200 OK\r\nContent-Length: 0\r\n\r\n");
+                    break;
+                }
+                if matches!(fin, Final::Err(_)) {
+                    break;
+                }
+                std::thread::sleep(std::time::Duration::from_millis(5));
+            }
+            ctx.outcome(format!("non-http-location:{}", if matches!(fin, Final::Err(_)) { "refused" } else { "followed" }));
+            if !matches!(fin, Final::Err(_)) || !got.is_empty() || hops.len() != 1 {
+                ctx.violation(
+                    "C09:non-http-location-followed",
+                    format!("{status} with Location {loc}: outcome {fin:?}; bytes received at that address: \"{}\"", esc(&got)),
+                    json!({"engine": "c09", "non_http": true}),
+                    n,
+                );
+            }
+        }
+    }
+    n
+}
+
 pub fn c09(ctx: &Ctx) -> Report {
     let starts: Vec<&str> = match ctx.tier {
         Tier::Quick => vec!["http://a.test/d1/d2/f?x=1", "http://a.test"],
@@ -393,6 +466,8 @@ pub fn c09(ctx: &Ctx) -> Report {
             }
         }
     }
+    let n_non_http = non_http_locations(ctx);
+    ctx.count("non_http_location_cases", n_non_http);
     let menu = response_menu();
     ctx.sample(json!({"response_menu_size": menu.len(), "first": menu[0], "last": menu[menu.len()-1]}));
     ctx.sample(json!({"case": Case09{start: starts[0].to_string(), max: 2, follow: true, responses: vec![menu[30].clone(), menu[50].clone(), menu[0].clone()]}}));
@@ -415,6 +490,11 @@ pub fn c09(ctx: &Ctx) -> Report {
 }
 
 pub fn replay09(v: &serde_json::Value) -> i32 {
+    if v["case"]["non_http"] == true {
+        let ctx = Ctx::new("C09", Tier::Quick);
+        non_http_locations(&ctx);
+        return if ctx.n_violation_classes() > 0 { 1 } else { 0 };
+    }
     let c: Case09 = serde_json::from_value(v["case"]["case"].clone()).expect("case");
     let (viol, cont, outcome) = check09(&c);
     println!("case {c:?}\noutcome {outcome} continues {cont:?}\nviolations {viol:?}");
@@ -469,9 +549,11 @@ pub enum Change {
     ToBypassedHost,
     /// back to the start host
     BackToStart,
+    /// an http URL on port 443 (the https default: must appear in Host)
+    Port443,
 }
 
-const CHANGES: [Change; 6] = [Change::SamePath, Change::OtherPath, Change::OtherHost, Change::OtherPort, Change::ToBypassedHost, Change::BackToStart];
+const CHANGES: [Change; 7] = [Change::SamePath, Change::OtherPath, Change::OtherHost, Change::OtherPort, Change::ToBypassedHost, Change::BackToStart, Change::Port443];
 
 #[derive(Clone, Debug, Serialize, Deserialize)]
 pub struct Case10 {
@@ -505,6 +587,7 @@ fn location_for(ch: Change) -> &'static str {
         Change::OtherPort => "http://start.test:8081/s",
         Change::ToBypassedHost => "http://sub.direct.test/d",
         Change::BackToStart => "http://start.test/s",
+        Change::Port443 => "http://shop.test:443/s",
     }
 }
 
@@ -515,7 +598,7 @@ fn run10(c: &Case10) -> Vec<(String, String)> {
         let loc = location_for(*ch);
         let t = resolve(urls.last().unwrap(), loc);
         urls.push(compose(&t));
-        responses.push(Resp { status: *s, location: Some(loc.to_string()) });
+        responses.push(Resp { status: *s, location: Some(loc.to_string()), body: 0 });
     }
     let body = c.body;
     let use_proxy = c.proxy;
@@ -745,7 +828,7 @@ pub fn c10(ctx: &Ctx) -> Report {
     rep.set("chain_length_bound", max_len as u64);
     rep.set(
         "rule",
-        format!("full product: {} body kinds x {{POST, PUT}} x {{no proxy, http proxy with a no_proxy entry}} x every chain of 1..{} hops over 6 hop changes (same URL, other path, other host, other port, host bypassing the proxy, back to start) x statuses (all five uniformly, two mixed patterns); every hop's bytes are parsed back as one well-formed request; each case is a distinct chain", BODYKS.len(), max_len),
+        format!("full product: {} body kinds x {{POST, PUT}} x {{no proxy, http proxy with a no_proxy entry}} x every chain of 1..{} hops over 7 hop changes (same URL, other path, other host, other port, host bypassing the proxy, back to start, an http URL on port 443) x statuses (all five uniformly, two mixed patterns); every hop's bytes are parsed back as one well-formed request; each case is a distinct chain", BODYKS.len(), max_len),
     );
     rep.assume("plain-http hops through a proxy are checked for connection target and absolute-form target; their Host value is not constrained by the property");
     rep.assume("http->https hops are exercised by the TLS lab part of C08/C12, not here");
